@@ -75,6 +75,7 @@ def classify_loops(prog, fn):
             src = iter_chain(recv)
             info["source"] = origin_desc(strip(src.source))
             info["source_node"] = strip(src.source)
+            info["chain"] = src
             if why:
                 info["kind"] = "unbounded-iterator"
                 info["detail"] = why
